@@ -1,5 +1,7 @@
 import DuneVerif.Proofs.C13Add
 import DuneVerif.Proofs.C13Wire
+import DuneVerif.Proofs.C13Sub
+import DuneVerif.Proofs.C13Renumber
 import DuneVerif.Gen.C13
 /-!
 C13 — IndicesSyncer completes index sets and remote index lists to mutual consistency.
@@ -393,6 +395,49 @@ theorem counting_numberer_spec (base : Nat) (w : World) (q : Nat) (st : RankStat
   have h := CountInv.recvAllS (base := base) q (st, c) (CountInv.init base st.idx c) (inbox w q)
   exact ⟨h.le, h.len, h.old, h.locs, h.distinct⟩
 
+/-! ### round three: the communicator -/
+
+/-- A sync on a sub-communicator.  The model numbers the processes as the communicator of the remote indices numbers
+them; processes of MPI_COMM_WORLD that are not part of that communicator appear (if at all) as further processes
+`k, k+1, …` that know nobody.  They do not take part: for the first `k` processes the sync of the whole world is the
+sync of these `k` processes alone — so every theorem of this file applies to the processes of the communicator by
+themselves, whatever else exists in the world — and a process that nobody lists receives nothing: its index set and
+remote indices are unchanged, only the sequence numbers advance. -/
+theorem sync_subcommunicator (num : Int → Nat) (w : World) (k : Nat)
+    (hidle : ∀ (p : Nat) (st : RankState), k ≤ p → w[p]? = some st → st.remote = []) :
+    (∀ q, q < k → (sync num w)[q]? = (sync num (w.take k))[q]?) ∧
+    (∀ (q : Nat) (st : RankState), w[q]? = some st →
+      (∀ (p : Nat) (sp : RankState), w[p]? = some sp → isNeighbour sp.remote q = false) →
+      (sync num w)[q]? = some (finish st)) :=
+  ⟨fun q hq => sync_take num w k hidle q hq, fun q st hst h => sync_unknown num w q st hst h⟩
+
+/-- The state after the sync is *determined* by a set-theoretic specification (`SyncSpec`, Proofs/C13Renumber.lean —
+the closure the harness' oracle computes): process `q` ends with exactly its old pairs plus one pair numbered by `num`
+for every (global, attribute) some process believed it to hold and it did not; exactly its old remote indices plus,
+for every such belief of a process `p`, `p` itself and every holder `p` listed; exactly the old neighbours plus the
+processes of the new remote indices; everything strictly ascending; sequence numbers advanced and equal.  The sync
+produces a state meeting this specification and no other state meets it — `sync_postcondition`, `sync_monotone`,
+`sync_exact`, `sync_sorted` and `sync_synced` together leave no freedom. -/
+theorem sync_determined (num : Int → Nat) (D : Decomp) (w : World) (hw : PartialView D w)
+    (q : Nat) (sq : RankState) (hq : w[q]? = some sq) :
+    ∃ sq', (sync num w)[q]? = some sq' ∧ SyncSpec num w q sq sq' ∧ ∀ s, SyncSpec num w q sq s → s = sq' := by
+  refine ⟨syncRank num w q sq, by rw [sync_getElem?, hq]; rfl, ?_, ?_⟩
+  · exact syncSpec_rank num hw q sq _ hq (by rw [sync_getElem?, hq]; rfl)
+  · intro s hs
+    exact syncSpec_unique hs (syncSpec_rank num hw q sq _ hq (by rw [sync_getElem?, hq]; rfl))
+
+/-- The numbering of the processes is irrelevant.  Let `w'` be the world `w` with process `p` called `ρ p` (`ρ` a
+permutation of the process numbers: another communicator over the same processes, e.g. `MPI_Comm_split` with a key or a
+Cartesian communicator with reordering) — same index sets, and what `p` lists for `y` in `w`, `ρ p` lists for `ρ y` in
+`w'`.  Then the states after the sync correspond in the same way.  Neither the order in which the messages are
+processed (ascending source rank in fixed-order mode), nor the order of the neighbours in the remote index map, nor
+the order of the (process, attribute) pairs inside a message — all of which follow the numbering — influence the
+result. -/
+theorem sync_numbering_irrelevant (num : Int → Nat) (D D' : Decomp) (ρ ρi : Nat → Nat) (w w' : World)
+    (hw : PartialView D w) (hw' : PartialView D' w') (hP : PermOn w.length ρ ρi) (hR : Renumbered ρ w w') :
+    Renumbered ρ (sync num w) (sync num w') :=
+  renumbered_sync num ρ ρi w w' hw hw' hP hR
+
 /-! ### non-vacuity: the hypotheses are satisfiable by a concrete non-trivial input
 
 Three ranks; index 3 owned by rank 0 with an overlap/copy on ranks 2/1, index 4 a copy everywhere, 6 owned by rank 1
@@ -442,6 +487,80 @@ example : ∃ s', (sync exNum exW)[2]? = some s' ∧
 /-- the deletion really removed something on rank 2 (so the restoration is not trivial) -/
 example : ∃ s2, exW[2]? = some s2 ∧ s2.idx.map (fun e => (e.g, e.attr)) = [(6, 1)] ∧
     s2.remote = [(0, []), (1, [⟨6, 1, 0⟩])] := ⟨_, rfl, by decide⟩
+
+/-! `sync_subcommunicator`: the example world inside a larger MPI_COMM_WORLD — a fourth process, not part of the
+communicator, with an index of its own -/
+def exW4 : World := exW ++ [⟨[⟨7, 0, 0⟩], [], 1, 1⟩]
+
+theorem exIdle : ∀ (p : Nat) (st : RankState), 3 ≤ p → exW4[p]? = some st → st.remote = [] := by
+  intro p st hp h
+  have hl : exW4.length = 4 := by decide
+  have hp4 : p < 4 := hl ▸ (List.getElem?_eq_some_iff.1 h).1
+  have : p = 3 := by omega
+  subst this
+  have : exW4[3]? = some ⟨[⟨7, 0, 0⟩], [], 1, 1⟩ := by decide
+  rw [this] at h
+  cases h
+  rfl
+
+/-- the three processes of the communicator get what they get without the fourth (rank 2 restores 3 and 4) ... -/
+example : ∀ q, q < 3 → (sync exNum exW4)[q]? = (sync exNum exW)[q]? := by
+  have h := (sync_subcommunicator exNum exW4 3 exIdle).1
+  have e : exW4.take 3 = exW := by decide
+  rw [e] at h
+  exact h
+
+/-- ... and the fourth keeps its index set -/
+example : (sync exNum exW4)[3]? = some ⟨[⟨7, 0, 0⟩], [], 2, 2⟩ :=
+  (sync_subcommunicator exNum exW4 3 exIdle).2 3 _ rfl (by
+    intro p sp h
+    have hl : exW4.length = 4 := by decide
+    have hp4 : p < 4 := hl ▸ (List.getElem?_eq_some_iff.1 h).1
+    have hall : ∀ p, p < 4 → ∀ sp, exW4[p]? = some sp → isNeighbour sp.remote 3 = false := by decide
+    exact hall p hp4 sp h)
+
+/-! `sync_determined` on the example: rank 2's state after the sync meets the specification -/
+example : ∃ s2, SyncSpec exNum exW 2 (exW[2]?.getD ⟨[], [], 0, 0⟩) s2 ∧ s2.idx = [⟨3, 1, 1003⟩, ⟨4, 2, 1004⟩, ⟨6, 1, 2⟩] := by
+  obtain ⟨s2, h1, h2, _⟩ := sync_determined exNum exD exW (partialView_of_deleted exD exWF exDel) 2 _ rfl
+  refine ⟨s2, h2, ?_⟩
+  have : (sync exNum exW)[2]?.map (·.idx) = some [⟨3, 1, 1003⟩, ⟨4, 2, 1004⟩, ⟨6, 1, 2⟩] := by decide
+  rw [h1] at this
+  simpa using this
+
+/-! `sync_numbering_irrelevant`: the example world with the processes 0, 1, 2 called 2, 0, 1 -/
+def exRho : Nat → Nat := fun p => if p = 0 then 2 else if p = 1 then 0 else if p = 2 then 1 else p
+def exRhoInv : Nat → Nat := fun p => if p = 0 then 1 else if p = 1 then 2 else if p = 2 then 0 else p
+def exDρ : Decomp := [[(3, 2), (4, 2), (6, 0)], [(3, 1), (4, 2), (6, 1)], [(1, 0), (3, 0), (4, 2)]]
+def exDelρ : Nat → Int → Bool := fun p g => (p == 0 && g == 3) || (p == 1 && (g == 3 || g == 4))
+def exWρ : World := deleteCopies exDelρ (consistent exDρ)
+
+theorem exWFρ : DecompWF exDρ := by unfold DecompWF; decide
+theorem exPerm : PermOn exW.length exRho exRhoInv := by unfold PermOn; decide
+
+theorem exRen : Renumbered exRho exW exWρ := by
+  refine ⟨by decide, fun p st h => ?_⟩
+  have hl : exW.length = 3 := by decide
+  have hp : p < 3 := hl ▸ (List.getElem?_eq_some_iff.1 h).1
+  have hc : p = 0 ∨ p = 1 ∨ p = 2 := by omega
+  rcases hc with rfl | rfl | rfl
+  · obtain ⟨s, hs, st', hst', hr⟩ : ∃ s, exW[0]? = some s ∧ ∃ st', exWρ[exRho 0]? = some st' ∧ RenSt exRho exW.length s st' :=
+      ⟨_, rfl, _, rfl, by decide⟩
+    rw [hs] at h; cases h; exact ⟨st', hst', hr⟩
+  · obtain ⟨s, hs, st', hst', hr⟩ : ∃ s, exW[1]? = some s ∧ ∃ st', exWρ[exRho 1]? = some st' ∧ RenSt exRho exW.length s st' :=
+      ⟨_, rfl, _, rfl, by decide⟩
+    rw [hs] at h; cases h; exact ⟨st', hst', hr⟩
+  · obtain ⟨s, hs, st', hst', hr⟩ : ∃ s, exW[2]? = some s ∧ ∃ st', exWρ[exRho 2]? = some st' ∧ RenSt exRho exW.length s st' :=
+      ⟨_, rfl, _, rfl, by decide⟩
+    rw [hs] at h; cases h; exact ⟨st', hst', hr⟩
+
+example : Renumbered exRho (sync exNum exW) (sync exNum exWρ) :=
+  sync_numbering_irrelevant exNum exD exDρ exRho exRhoInv exW exWρ (partialView_of_deleted exD exWF exDel)
+    (partialView_of_deleted exDρ exWFρ exDelρ) exPerm exRen
+
+/-- ... evaluated: what process 2 lists for 0 and 1 after the sync, process 1 = ρ 2 of the renumbered world lists for
+2 = ρ 0 and 0 = ρ 1 (so the order of the two lists in the map is the other way round) -/
+example : ((sync exNum exW)[2]?).map (·.remote) = some [(0, [⟨3, 1, 0⟩, ⟨4, 2, 2⟩]), (1, [⟨3, 1, 2⟩, ⟨4, 2, 2⟩, ⟨6, 1, 0⟩])] ∧
+    ((sync exNum exWρ)[1]?).map (·.remote) = some [(0, [⟨3, 1, 2⟩, ⟨4, 2, 2⟩, ⟨6, 1, 0⟩]), (2, [⟨3, 1, 0⟩, ⟨4, 2, 2⟩])] := by decide
 
 /-! ### the bytes: statements about the field layouts regenerated from the source (Gen/C13.lean, tr_c13.py) -/
 
